@@ -21,7 +21,7 @@ RULE = (
     "between checkpointed arguments) equal to the un-wrapped function to 1e-12. Non-trivial = >= 2 differentiated positions at >= 2 "
     "distinct trace levels, or a None / argnums= / 'same' registration; checkpoint at order >= 2; distinct by configuration."
     ' Positional-style defvjp_argnums / defjvp_argnums rules; checkpointed blocks closing over traced values (same level: open finding) or over a loop variable / a list that changes after the call.'
-    ' identity_rule: a primitive linear in its arguments whose rules return the incoming (co)tangent itself, several arguments traced at one level, closed-form first and second derivatives, caller arrays unchanged.'
+    ' identity_rule: a primitive linear in its arguments whose rules return the incoming (co)tangent itself, several arguments traced at one level, closed-form first and second derivatives, caller arrays unchanged. identity_view: one argument enters reversed (its rule returns a view of the (co)tangent), operands also consumed before the call, result consumed three times, terms in a drawn order; central / Richardson second differences of the plain function.'
 )
 
 VJP_APIS = ["defvjp", "defvjp_none", "defvjp_argnums_kw", "defvjp_argnum", "defvjp_argnums", "no_vjp", "defvjp_argnums_positional"]
